@@ -87,8 +87,10 @@ def grid(engine):
                     for cls, i in oob_indices(n):
                         cells.append(Cell(engine, op, kind, cons, n, i, cls, group=grp))
                     if n == 0:
-                        # control for the empty array: one push makes index 0 valid
-                        cells.append(Cell(engine, op, kind, "pushed", 1, 0, "ctl", control=True, group=grp))
+                        # controls for the empty array (no index is in range): the one-element arrays of both
+                        # constructions, index 0; one of them has to behave
+                        for cc in CONS:
+                            cells.append(Cell(engine, op, kind, cc, 1, 0, "ctl", control=True, group=grp))
                     else:
                         for i in sorted(set([0, n - 1])):
                             cells.append(Cell(engine, op, kind, cons, n, i, "ctl", control=True, group=grp))
@@ -158,6 +160,7 @@ def program(cell):
         L.append("    let mut a: array<%s> = []" % T)
         for j in range(cell.n):
             L.append("    set a (array_push a %s)" % elem_src(k, j))
+    L.append('    (println "C08:START")')       # nanoc --verbose prefixes the first line with "Testing t... "
     L.append('    (println (+ "C08:LEN=" (int_to_string (array_length a))))')
     pre = []
     for p in range(cell.prepops):
@@ -252,7 +255,8 @@ def execute(flavor, sc, cell, seq):
     engines.write_files(d, {"main.nano": src})
     r = None
     if cell.engine in ("native", "eval"):
-        rb, built = engines.build_native(flavor, d, san=True)
+        # --verbose: without it nanoc discards what shadow blocks print
+        rb, built = engines.build_native(flavor, d, san=True, verbose=(cell.engine == "eval"))
         if cell.engine == "eval":
             r = rb
             o.binary = os.path.exists(os.path.join(d, "main.bin"))
